@@ -83,6 +83,17 @@ CLAIMED = {
         technique="Rocq proof (lexer layout lemma; computed instances) + translator-regenerated data item table + in-Coq differential correspondence against the documented-shape specification",
         design="5/C19",
     ),
+    "C15": dict(
+        text="Theorems (Props/C15.v): on any text the reader's recursion is bounded by the number of tokens - it ends with an item or an error "
+             "(C15_reader_terminates), every returned item consumed tokens (C15_reader_consumes), scalar values are accepted only up to a closing bracket "
+             "(C15_scalar_needs_closing_bracket), every integer printed by to_sml is read back unchanged (C15_integers_roundtrip: decimal printing/parsing, any "
+             "size); computed instances of the full round trip (quotes, control characters, JIS-8, nesting) and of the rejections. The general round trip "
+             "(parse(print i) = i for every item) is decided by the differential correspondence of the model (tokenizer, reader, printers) and by the round-trip "
+             "specification on generated items; it is not yet a theorem.",
+        note=NOTE_COMMON + " float(text) and float formatting are not modelled (float items are judged by the observed round trip only); int('1_0') and non-ASCII digits are skipped; bools held by integer items are outside the item domain.",
+        technique="Rocq proof (termination/consumption by induction on fuel and tokens, decimal round trip) + regenerated constants + in-Coq differential correspondence",
+        design="5/C15",
+    ),
 }
 
 NOT_YET = {}
